@@ -1,26 +1,326 @@
 /-
-C02 — send()/resend() truthful and terminating (statements in progress).
+C02 — send()/resend() report the true fate of the payload and always terminate.
+
+Radio level (environment model, `NrfModel/Air.lean`): the Enhanced ShockBurst attempt loop and
+transmit cycle in closed form, for **every** fault pattern (`List Outcome`, any length), every
+ARC / ARD, in every world (any number of radios in any state).
+
+Driver level (`Rf24.send`, `Rf24.resend` over that radio), for every fault pattern, every ARC 0..15,
+every ARD, every `force_retry : Nat`, `ask_no_ack` / `send_only` on or off, static and dynamic
+payload modes, ACK payloads on or off, **every world** (any number of other radios, listening or
+not, compatible or not): the peer is not assumed — the ground truth `sendAcked` *computes* from the
+world whether some radio accepts and acknowledges the packet and whether the sender can hear it.
+
+Hypotheses (all explicit; `SendPre`, `AckEnv`, `Hist`, `FailedSt` are in `NrfProofs/C02*.lean`):
+* `SendPre s buf sendOnly`: the radio exists, is a powered-up PTX (PWR_UP ∧ ¬PRIM_RX — in RX mode or
+  powered down `send()` spins in code and model alike: outside the property), RX FIFO entries carry
+  pipes 0..5, **the TX FIFO is empty or the cached status byte makes `send()` flush it** (what a
+  failed `send()` leaves behind: `C02_history`), with `send_only` off the cache is right about the RX
+  FIFO, and the payload passes `write()`'s check (dynamic: 1..32 bytes; static: `_pl_len[0] ≥ 1`).
+  CE may be high or low.
+* `AckEnv`: only used for the *value* of the ACK payload: the EN_DPL shadow agrees with the register
+  when the radio takes ACK payloads, and no radio attaches an empty ACK payload (true in every
+  reachable world: `ackEnv_of_sane`, `World.Reachable.good`).
 -/
-import NrfModel.Rf24
+import NrfProofs.C02Hist
 
 namespace Nrf.Props.C02
-open Nrf
+open Nrf Rf24 Spec.Link
 
 /-- an acknowledged cycle makes at most `1 + ARC` attempts, whatever the fault pattern -/
 theorem C02_attempts_le (s : Nat) (k : Packet) (n made : Nat) (w : World) :
-    (World.attemptLoop s k n made w).2.1 ≤ made + n := by
-  induction n generalizing made w with
-  | zero => simp [World.attemptLoop]
-  | succ n ih =>
-    unfold World.attemptLoop
-    simp only
-    split
-    · have := ih (made + 1) (w.nextFault).1; omega
-    · have := ih (made + 1) ((w.nextFault).1.deliver s k).1; omega
-    · split
-      · split
-        · simp
-        · have := ih (made + 1) ((w.nextFault).1.deliver s k).1; omega
-      · have := ih (made + 1) ((w.nextFault).1.deliver s k).1; omega
+    (World.attemptLoop s k n made w).2.1 ≤ made + n := World.attemptLoop_made_le s k n made w
+
+example : (World.attemptLoop 0 default 4 0 (World.fresh 2)).2.1 = 4 := by decide
+
+/-- **The attempt loop, for every fault pattern and world.**  With a budget of `n` attempts it
+    returns an acknowledgement iff some radio acknowledges the packet, the sender can hear it
+    (`World.acked`), and one of the first `n` outcomes of the pattern is `delivered`; the
+    acknowledgement returned is the one the first acknowledging radio sends; it makes the attempts
+    up to and including the first `delivered` one — all `n` when there is none or nobody to
+    acknowledge — and consumes exactly that many outcomes; it never touches the sender. -/
+theorem C02_attempt_loop (s : Nat) (k : Packet) (n made : Nat) (w : World) :
+    ((World.attemptLoop s k n made w).2.2.isSome = true ↔ w.acked s k = true ∧ hasDelivered w.faults n) ∧
+    (∀ a, (World.attemptLoop s k n made w).2.2 = some a → (w.deliver s k).2 = some a) ∧
+    (World.attemptLoop s k n made w).2.1 = made + (if w.acked s k then attemptsUsed w.faults n else n) ∧
+    (World.attemptLoop s k n made w).1.faults = w.faults.drop (if w.acked s k then attemptsUsed w.faults n else n) ∧
+    (World.attemptLoop s k n made w).1.radio s = w.radio s := by
+  obtain ⟨h1, h2, h3⟩ := World.attemptLoop_spec s k n made w
+  refine ⟨?_, ?_, h2, h3, World.attemptLoop_sender s k n made w⟩
+  · rw [h1, ← World.hasDeliveredB_iff]
+    constructor
+    · intro h
+      split at h
+      · rename_i hc; simpa using hc
+      · cases h
+    · rintro ⟨hA, hD⟩
+      rw [hA, hD]
+      exact acked_isSome _ _ _ hA
+  · intro a ha
+    rw [h1] at ha
+    split at ha
+    · exact ha
+    · cases ha
+
+example : ∃ fs : List Outcome, hasDelivered fs 3 ∧ ¬ hasDelivered fs 2 :=
+  ⟨[.packetLost, .ackLost, .delivered], ⟨2, by decide, rfl⟩, by
+    rintro ⟨i, hi, h⟩
+    have : i = 0 ∨ i = 1 := by omega
+    rcases this with rfl | rfl <;> cases h⟩
+
+/-- **The transmit cycle, for every fault pattern and world**: radio `s` (any state) with head
+    entry `e` and `1 + ARC` attempts.  No acknowledgement awaited (auto-ack off, or NO_ACK honoured):
+    TX_DS, the head payload popped — always, one attempt.  Acknowledgement awaited and obtained within
+    the budget: TX_DS, exactly the head payload popped, ARC_CNT = attempts − 1, the ACK payload (if any,
+    if enabled and if there is room) into the RX FIFO on pipe 0 with RX_DR.  Otherwise: MAX_RT,
+    exactly that payload kept at the head **with its PID**, ARC_CNT = ARC, PLOS_CNT + 1. -/
+theorem C02_cycle (w : World) (s : Nat) (e : TxEntry) (rest : List TxEntry) (hs : s < w.radios.length) :
+    ((w.radio s).awaitsAck e = false →
+      (w.cycle s e rest).radio s = ((w.radio s).takePid e).txDoneNoAck rest) ∧
+    ((w.radio s).awaitsAck e = true → w.acked s ((w.radio s).packetFor e) = true →
+      hasDelivered w.faults (World.arcOf (w.radio s) + 1) →
+      ∃ a, (w.deliver s ((w.radio s).packetFor e)).2 = some a ∧
+        (w.cycle s e rest).radio s =
+          ((w.radio s).takePid e).txDoneAcked rest (attemptsUsed w.faults (World.arcOf (w.radio s) + 1)) a) ∧
+    ((w.radio s).awaitsAck e = true →
+      ¬ (w.acked s ((w.radio s).packetFor e) = true ∧ hasDelivered w.faults (World.arcOf (w.radio s) + 1)) →
+      (w.cycle s e rest).radio s = ((w.radio s).takePid e).txFailed e ((w.radio s).pidFor e) rest) := by
+  have hself := World.cycle_self w s e rest hs
+  obtain ⟨h2, h1⟩ := World.cycleRes_spec w s e hs
+  refine ⟨fun haw => ?_, fun haw hA hD => ?_, fun haw hn => ?_⟩
+  · rw [hself]; unfold Radio.afterCycle; rw [haw]; rfl
+  · have hDB := (World.hasDeliveredB_iff _ _).2 hD
+    obtain ⟨a, ha⟩ := Option.isSome_iff_exists.1 (acked_isSome _ _ _ hA)
+    refine ⟨a, ha, ?_⟩
+    rw [hself]; unfold Radio.afterCycle
+    rw [haw, h2, h1, hA, hDB, ha]
+    rfl
+  · rw [hself]; unfold Radio.afterCycle
+    rw [haw, h2]
+    have : (w.acked s ((w.radio s).packetFor e) && hasDeliveredB w.faults (World.arcOf (w.radio s) + 1)) = false := by
+      cases hA : w.acked s ((w.radio s).packetFor e) with
+      | false => rfl
+      | true =>
+        cases hD : hasDeliveredB w.faults (World.arcOf (w.radio s) + 1) with
+        | false => rfl
+        | true => exact absurd ⟨hA, (World.hasDeliveredB_iff _ _).1 hD⟩ hn
+    rw [this]
+    rfl
+
+/-- what the three endings of a cycle mean for the flags, the TX FIFO and ARC_CNT -/
+theorem C02_cycle_fields (r : Radio) (e : TxEntry) (rest : List TxEntry) (made pid : Nat) (a : Option Bytes) :
+    dataSent (r.txDoneNoAck rest) = true ∧ (r.txDoneNoAck rest).txFifo = rest ∧ (r.txDoneNoAck rest).arcCnt = 0 ∧
+    dataSent (r.txDoneAcked rest made a) = true ∧ (r.txDoneAcked rest made a).txFifo = rest ∧
+    (r.txDoneAcked rest made a).arcCnt = made - 1 ∧
+    dataFail (r.txFailed e pid rest) = true ∧ (r.txFailed e pid rest).txFifo = { e with pid := some pid } :: rest ∧
+    (r.txFailed e pid rest).arcCnt = World.arcOf r := by
+  have or20 : ∀ f g : Nat, (f ||| 0x20 ||| g) &&& 0x20 ≠ 0 := by
+    intro f g
+    rw [Nat.and_or_distrib_right, Nat.and_or_distrib_right]
+    intro h
+    have := (Nat.or_eq_zero_iff.1 (Nat.or_eq_zero_iff.1 h).1).2
+    simp at this
+  refine ⟨?_, rfl, rfl, ?_, rfl, rfl, ?_, rfl, rfl⟩
+  · unfold dataSent Radio.txDoneNoAck
+    have := or20 r.flags 0
+    simpa using this
+  · unfold dataSent Radio.txDoneAcked
+    simpa using or20 r.flags _
+  · unfold dataFail Radio.txFailed
+    simpa using Radio.or10_and10 r.flags
+
+example : ∃ (w : World) (e : TxEntry), (w.radio 0).txFifo = [e] ∧ (w.radio 0).awaitsAck e = true ∧
+    w.acked 0 ((w.radio 0).packetFor e) = false :=
+  ⟨{ radios := [{ txFifo := [⟨.payload, [1], none⟩], config := 0x0E }], busyUntil := [0] }, _, rfl, by decide, by decide⟩
+
+/-- **`send()` is truthful** — for every fault pattern, ARC, ARD, `force_retry`, mode and world.
+    It returns (with the caller's buffer untouched) `False` iff the ground truth says the
+    `(1 + ARC) · (1 + force_retry)` budgeted attempts all go unacknowledged while an acknowledgement
+    is awaited; otherwise `True`, or — `send_only` off, ACK payloads enabled on this radio, the
+    acknowledgement carrying one — that ACK payload.  (`sendExpected`, `sendSucceedsB`: `Spec/Link.lean`;
+    `C02_succeeds_iff` relates the executable ground truth to its ∃-form.) -/
+theorem C02_send_truth (s : DrvState) (buf : Bytes) (m askNoAck : Bool) (n : Nat) (sendOnly : Bool)
+    (h : SendPre s buf sendOnly) (henv : AckEnv s.rad (s.sendPacket askNoAck buf) s) :
+    (exec (send buf m askNoAck (n : Int) sendOnly) s).1 =
+      .ok (sendExpected (sendSucceedsB (s.sendAwaits askNoAck buf) (s.sendAcked askNoAck buf) s.w.faults
+              (World.arcOf s.rad) n) sendOnly (s.sendAckPayload askNoAck buf), buf) :=
+  (send_final s buf m askNoAck n sendOnly h henv).1
+
+/-- the ground truth in the words of the property: the transmission completes iff no
+    acknowledgement is requested, or a peer acknowledges audibly and some attempt `i` within the
+    budget `(1 + arc)(1 + n)` is `delivered` under the fault pattern -/
+theorem C02_succeeds_iff (aw A : Bool) (F : List Outcome) (arc n : Nat) :
+    sendSucceedsB aw A F arc n = true ↔
+      (aw = false ∨ (A = true ∧ ∃ i, i < (1 + arc) * (1 + n) ∧ F.getD i .delivered = .delivered)) :=
+  sendSucceedsB_iff aw A F arc n
+
+/-- `send()` returns `False` exactly when the ground truth says the transmission failed; a successful
+    result is never `False` -/
+theorem C02_false_iff (succeeds sendOnly : Bool) (taken : Option Bytes) :
+    sendExpected succeeds sendOnly taken = .bool false ↔ succeeds = false := by
+  unfold sendExpected okResult
+  cases succeeds <;> cases sendOnly <;> cases taken <;> simp
+
+/-- a concrete world for the examples: radio 0 a powered-up PTX, radio 1 listening on the same
+    address with 32-byte static payloads and auto-ack -/
+def exWorld (fs : List Outcome) : World :=
+  { radios := [{ config := 0x0E }, { config := 0x0F, ce := true, rxPw := [32, 0, 0, 0, 0, 0] }],
+    busyUntil := [0, 0], faults := fs }
+
+def exState (fs : List Outcome) : DrvState := { d := { dynPl := 0 }, w := exWorld fs }
+
+example : SendPre (exState [.packetLost, .ackLost]) [1, 2, 3] false :=
+  ⟨by decide, by decide, by decide, Or.inr rfl, fun _ => Or.inl rfl, fun h => absurd h (by decide), fun _ => by decide⟩
+
+example : (exState []).sendAwaits false [1, 2, 3] = true ∧ (exState []).sendAcked false [1, 2, 3] = true := by decide
+
+/-- **`send()` terminates** — for every fault pattern: it never runs out of the polling fuel
+    (`POLL_FUEL` = 8 polls; with jump semantics the flags are visible at the first poll after the
+    trigger) nor of the retry fuel, and raises nothing. -/
+theorem C02_terminates (s : DrvState) (buf : Bytes) (m askNoAck : Bool) (n : Nat) (sendOnly : Bool)
+    (h : SendPre s buf sendOnly) (henv : AckEnv s.rad (s.sendPacket askNoAck buf) s) :
+    (exec (send buf m askNoAck (n : Int) sendOnly) s).1 ≠ .error .diverge ∧
+    ∃ r, (exec (send buf m askNoAck (n : Int) sendOnly) s).1 = .ok r := by
+  rw [C02_send_truth s buf m askNoAck n sendOnly h henv]
+  exact ⟨(by intro hc; cases hc), _, rfl⟩
+
+/-- **Virtual-time bound**: `send()` returns by
+    `t₀ + (1 + ARC)(1 + force_retry)·(T_TX + ARD) + (8 + 7·force_retry)·SPI_COST`, where `t₀` is the
+    moment the radio is free (`max clock busyUntil`; `= clock` after any completed call) — for every
+    fault pattern; and it consumes at most `(1 + ARC)(1 + force_retry)` outcomes of the pattern. -/
+theorem C02_time (s : DrvState) (buf : Bytes) (m askNoAck : Bool) (n : Nat) (sendOnly : Bool)
+    (h : SendPre s buf sendOnly) (henv : AckEnv s.rad (s.sendPacket askNoAck buf) s) :
+    (exec (send buf m askNoAck (n : Int) sendOnly) s).2.w.clock ≤
+      max s.w.clock (s.w.busyUntil.getD s.d.rid 0) +
+        (1 + World.arcOf s.rad) * (1 + n) * (T_TX_NS + World.ardNs s.rad) + (8 + 7 * n) * SPI_COST_NS ∧
+    ∃ att, att ≤ (1 + World.arcOf s.rad) * (1 + n) ∧
+      (exec (send buf m askNoAck (n : Int) sendOnly) s).2.w.faults = s.w.faults.drop att := by
+  obtain ⟨_, ⟨att, _, hatt, _, hrun⟩, _, _⟩ := send_final s buf m askNoAck n sendOnly h henv
+  refine ⟨?_, att, hatt, hrun.sent.faults⟩
+  have he := hrun.sent.eff
+  unfold World.eff at he
+  unfold budget at hatt
+  have : att * (T_TX_NS + World.ardNs s.rad) ≤ (1 + World.arcOf s.rad) * (1 + n) * (T_TX_NS + World.ardNs s.rad) :=
+    Nat.mul_le_mul_right _ hatt
+  omega
+
+example : World.arcOf { setupRetr := 0x5F } = 15 ∧ World.ardNs { setupRetr := 0x5F } = 1500000 := by decide
+
+/-- **A failed payload does not leak, I**: what `send()` leaves behind and what it put on the air.
+    Every record it appended to the air log is a transmission of *its own* packet by this radio.
+    After a failed `send()` the TX FIFO holds exactly that payload (with the PID it was sent with),
+    MAX_RT alone is latched, and the cached status byte shows it — so the next `send()` flushes it
+    (`Hist.sendPre`).  After a successful one the TX FIFO is empty. -/
+theorem C02_no_leak (s : DrvState) (buf : Bytes) (m askNoAck : Bool) (n : Nat) (sendOnly : Bool)
+    (h : SendPre s buf sendOnly) (henv : AckEnv s.rad (s.sendPacket askNoAck buf) s) :
+    (∃ L, (exec (send buf m askNoAck (n : Int) sendOnly) s).2.w.air = s.w.air ++ L ∧
+          ∀ x ∈ L, x.sender = s.d.rid ∧ x.pkt = s.sendPacket askNoAck buf) ∧
+    (sendSucceedsB (s.sendAwaits askNoAck buf) (s.sendAcked askNoAck buf) s.w.faults (World.arcOf s.rad) n = false →
+      (exec (send buf m askNoAck (n : Int) sendOnly) s).2.rad.txFifo =
+        [(s.sendEntry askNoAck buf).withPid (s.rad.pidFor (s.sendEntry askNoAck buf))] ∧
+      (exec (send buf m askNoAck (n : Int) sendOnly) s).2.rad.flags = 0x10 ∧
+      (exec (send buf m askNoAck (n : Int) sendOnly) s).2.d.status &&& 0x10 ≠ 0) ∧
+    (sendSucceedsB (s.sendAwaits askNoAck buf) (s.sendAcked askNoAck buf) s.w.faults (World.arcOf s.rad) n = true →
+      (exec (send buf m askNoAck (n : Int) sendOnly) s).2.rad.txFifo = []) := by
+  obtain ⟨_, ⟨att, _, _, _, hrun⟩, h3, h4⟩ := send_final s buf m askNoAck n sendOnly h henv
+  refine ⟨hrun.sent.air, fun hok => ?_, fun hok => (h4 hok).tx⟩
+  obtain ⟨hf, hfr⟩ := h3 hok
+  refine ⟨hf.fifo, hf.flags, ?_⟩
+  rw [hfr, (Radio.status_decodeP _ hf.pipes).2.2.2.2.2.1, hf.flags]; decide
+
+/-- **A failed payload does not leak, II — induction over histories.**  `Hist R` ("a failed
+    transmission is pending and the cache shows MAX_RT, or the TX FIFO is empty"; it holds after
+    `flush_tx(); update()` on a PTX with CE low, and after every `send()`/`resend()`) is kept by every
+    `send()` and every `resend()`, whatever their arguments, results and the fault pattern; and in
+    every such state `send()`'s precondition holds.  Hence, by induction, along **every sequence of
+    consecutive `send()`/`resend()` calls** each `send()` is truthful (`C02_send_truth`) and puts only
+    its own packet on the air (`C02_no_leak`). -/
+theorem C02_history (R : Radio) (hp : R.Ptx) (s : DrvState) (h : Hist R s) :
+    (∀ (buf : Bytes) (m askNoAck : Bool) (n : Nat) (sendOnly : Bool),
+      (s.d.dynPl &&& 1 ≠ 0 → buf ≠ [] ∧ buf.length ≤ 32) → (s.d.dynPl &&& 1 = 0 → 1 ≤ s.d.plLen.getD 0 0) →
+      AckEnv s.rad (s.sendPacket askNoAck buf) s →
+      SendPre s buf sendOnly ∧ Hist R (exec (send buf m askNoAck (n : Int) sendOnly) s).2) ∧
+    (∀ sendOnly : Bool, (∀ e k, FailedSt R e k s → AckEnv R k s) → Hist R (exec (resend sendOnly) s).2) :=
+  ⟨fun buf m a n so hl hpd henv => ⟨h.sendPre hp buf so hl hpd, hist_send R s h hp buf m a n so hl hpd henv⟩,
+   fun so henv => hist_resend R s h hp so henv⟩
+
+example : Hist { config := 0x0E } (exState []) := Or.inr ⟨by decide, rfl, by decide, rfl, Or.inl rfl⟩
+
+/-- **`resend()` on a pending failed transmission** (the state `send()` leaves after a failure, by
+    `C02_no_leak` / `send_final`): exactly one more cycle for *the same packet* — same payload, same
+    PID, nothing else on the air — with the result the ground truth of the fault pattern dictates:
+    `False` iff its `1 + ARC` attempts all go unacknowledged; terminates; virtual time bounded. -/
+theorem C02_resend (R : Radio) (e : TxEntry) (k : Packet) (s : DrvState) (sendOnly : Bool) (hp : R.Ptx)
+    (h : FailedSt R e k s) (henv : AckEnv R k s) :
+    (exec (resend sendOnly) s).1 =
+      .ok (sendExpected (cycleOkSpec (R.awaitsAck e) (ackedR R s.w s.d.rid k) s.w.faults (World.arcOf R + 1))
+             sendOnly (ackTaken (R.awaitsAck e) (s.w.deliver s.d.rid k).2 R.ackPayRx true)) ∧
+    (∃ L, (exec (resend sendOnly) s).2.w.air = s.w.air ++ L ∧ ∀ x ∈ L, x.sender = s.d.rid ∧ x.pkt = k) ∧
+    (exec (resend sendOnly) s).2.w.clock ≤
+      max s.w.clock (s.w.busyUntil.getD s.d.rid 0) + (1 + World.arcOf R) * (T_TX_NS + World.ardNs R) + 7 * SPI_COST_NS := by
+  obtain ⟨s', h1, h2, _, _⟩ := resend_spec R e k s sendOnly hp h henv
+  rw [h1]
+  refine ⟨rfl, h2.sent.air, ?_⟩
+  have he := h2.sent.eff
+  unfold World.eff at he
+  have hle := cycleAttemptsSpec_le (R.awaitsAck e) (ackedR R s.w s.d.rid k) s.w.faults (World.arcOf R + 1) (by omega)
+  have : cycleAttemptsSpec (R.awaitsAck e) (ackedR R s.w s.d.rid k) s.w.faults (World.arcOf R + 1) *
+      (T_TX_NS + World.ardNs R) ≤ (1 + World.arcOf R) * (T_TX_NS + World.ardNs R) :=
+    Nat.mul_le_mul_right _ (by omega)
+  simp only at he ⊢
+  omega
+
+/-- `cycleOkSpec` (one cycle) in the words of the property -/
+theorem C02_cycle_ok_iff (aw A : Bool) (F : List Outcome) (N : Nat) :
+    cycleOkSpec aw A F N = true ↔ (aw = false ∨ (A = true ∧ hasDelivered F N)) := by
+  unfold cycleOkSpec
+  rw [← World.hasDeliveredB_iff]
+  cases aw <;> cases A <;> simp
+
+/-- **`resend()` with an empty TX FIFO** returns `False` without transmitting: one register read,
+    the radio and the air are untouched. -/
+theorem C02_resend_empty (s : DrvState) (sendOnly : Bool) (hw : s.Wf) (htx : s.rad.txFifo = []) :
+    (exec (resend sendOnly) s).1 = .ok (.bool false) ∧
+    (exec (resend sendOnly) s).2.rad = s.rad ∧
+    (exec (resend sendOnly) s).2.w.air = s.w.air ∧ (exec (resend sendOnly) s).2.w.faults = s.w.faults := by
+  obtain ⟨r1, r2, r3, _⟩ := resend_empty s sendOnly hw htx
+  exact ⟨r1, r2, r3.2.2.1, r3.2.1⟩
+
+example : (exState []).Wf ∧ (exState []).rad.txFifo = [] := ⟨by decide, rfl⟩
+
+/-- **A list / tuple input yields one result per payload, in order.**  `send([b₁, b₂, …])` is CE low
+    followed by `List.mapM` of the single-buffer `send` (by definition of the model, which
+    transliterates the recursive calls of the Python); and from any state of a send/resend history,
+    for every fault pattern, that `mapM` returns exactly `expectedList`: the ground-truth result of
+    each payload **in the state its predecessors leave behind**, in order, each with its own buffer
+    untouched — and leaves the history invariant in place.  (`listOk`: every payload passes
+    `write()`'s check and meets `AckEnv` when its turn comes.) -/
+theorem C02_send_list (R : Radio) (hp : R.Ptx) (bufs : List (Bool × Bytes)) (askNoAck : Bool) (n : Nat) (sendOnly : Bool)
+    (s : DrvState) (h : Hist R s) (hok : listOk askNoAck n sendOnly s bufs) :
+    sendList bufs askNoAck (n : Int) sendOnly =
+      (setCE false >>= fun _ => bufs.mapM fun mb => send mb.2 mb.1 askNoAck (n : Int) sendOnly) ∧
+    (exec (bufs.mapM fun mb => send mb.2 mb.1 askNoAck (n : Int) sendOnly) s).1 =
+      .ok (expectedList askNoAck n sendOnly s bufs) ∧
+    (expectedList askNoAck n sendOnly s bufs).length = bufs.length ∧
+    Hist R (exec (bufs.mapM fun mb => send mb.2 mb.1 askNoAck (n : Int) sendOnly) s).2 := by
+  obtain ⟨h1, h2⟩ := mapM_send R hp askNoAck n sendOnly bufs s h hok
+  refine ⟨rfl, h1, ?_, h2⟩
+  clear h1 h2 hok h
+  induction bufs generalizing s with
+  | nil => rfl
+  | cons mb rest ih => simp only [expectedList, List.length_cons]; rw [ih]
+
+example : listOk false 0 false (exState []) [(false, [1, 2, 3])] :=
+  ⟨fun h => absurd h (by decide), fun _ => by decide,
+   ackEnv_of_sane _ _ _ (by
+     intro j hj
+     have : j = 0 ∨ j = 1 := by
+       have : j < 2 := hj
+       omega
+     rcases this with rfl | rfl
+     · exact ⟨(fun e he => by cases he), Nat.zero_le _, Nat.zero_le _, (fun e he => by cases he), Nat.zero_le _,
+         (fun d hd => by cases hd)⟩
+     · exact ⟨(fun e he => by cases he), Nat.zero_le _, Nat.zero_le _, (fun e he => by cases he), Nat.zero_le _,
+         (fun d hd => by cases hd)⟩) (fun hc => absurd hc (by decide)), trivial⟩
 
 end Nrf.Props.C02
